@@ -331,6 +331,11 @@ let judge op0 args got =
                    as-is accuracy: less than B ulps of the result *)
                 if directed && entry = ECompute && not fexact && first_decided (List.map snd att) = VAccept
                 then known "directed_faithful" ("within-1ulp cls=" ^ cls)
+                (* open finding powi_overlong_operand (F07): an operand longer than twice the working precision is
+                   rounded by Context::sqr / mul with the flag dropped (C03 F08): untruthful Exact, or a value off by
+                   the double rounding; known only when the implementation returned exactly what the as-is model predicts *)
+                else if op = "powi" && powi_overlong b p s a2 && fid = " asis=same" ^ (if entry = ECompute && Zar.sign s <> 0 then " path=" ^ asis_path op b s e a2 else "")
+                then known "powi_overlong_operand" ("within-1ulp-truthful-flag cls=" ^ cls)
                 else { v = "fail"; extra = "not-within-1ulp-or-untruthful-Exact cls=" ^ cls ^ fid }
             | VUndecided -> skip ("undecided-" ^ cls)
           end
